@@ -52,6 +52,8 @@ def main():
     ap.add_argument('--jobs', type=int, default=int(os.environ.get('DEPSIM_JOBS', '0')) or (os.cpu_count() or 4))
     ap.add_argument('--selftest-digests', type=int)
     ap.add_argument('--no-selftest', action='store_true')
+    ap.add_argument('--digests-only', action='store_true',
+                    help='run --runs runs through the parallel search driver and print {index: event-log digest}')
     ap.add_argument('--no-shrink', action='store_true')
     args = ap.parse_args()
     if args.tier not in ('quick', 'thorough'):
@@ -111,6 +113,14 @@ def main():
     if args.selftest_digests:
         print('DIGESTS ' + json.dumps(selftest_digests(prop, args.seed, args.selftest_digests, args.tier, options),
                                       sort_keys=True))
+        sys.exit(0)
+
+    if args.digests_only:
+        stats, violations, logs, errors = runner.run_search(
+            args.property, args.seed, args.tier, args.runs or 32, args.jobs, options, wall_budget=None)
+        if errors:
+            harness_error(errors[0].splitlines()[0])
+        print('DIGESTS ' + json.dumps({str(k): v for k, v in sorted(logs.items())}, sort_keys=True))
         sys.exit(0)
 
     tiers = getattr(prop, 'tiers', None) or TIERS['default']
